@@ -179,8 +179,8 @@ class RuntimeV1_0(Runtime):
                     events, processing_log=processing_log
                 )
 
-                if len(next_events) == 0:
-                    next_events = [new_event_dict("Listen")]
+            if len(next_events) == 0:
+                next_events = [new_event_dict("Listen")]
 
             # Otherwise, we append the event and continue the processing.
             events.extend(next_events)
